@@ -321,6 +321,80 @@ def main(inp, emit):
     return [h, i]
 '''
 
+PROGRAMS['tracking_dicts'] = '''
+class Options(dict):
+    """options whose use is tracked (unused-options report)"""
+    def __init__(self, *a, **k):
+        super().__init__(*a, **k)
+        self.used = []
+    def __getitem__(self, key):
+        self.used.append(key)
+        return super().__getitem__(key)
+    def __contains__(self, key):
+        self.used.append(('in', key))
+        return super().__contains__(key)
+
+class Cache(dict):
+    """cache with access statistics"""
+    stats = None
+    def __init__(self):
+        super().__init__()
+        self.stats = {'get': 0, 'len': 0, 'keys': 0, 'iter': 0}
+    def __getitem__(self, key):
+        self.stats['get'] += 1
+        return super().__getitem__(key)
+    def __len__(self):
+        self.stats['len'] += 1
+        return super().__len__()
+    def keys(self):
+        self.stats['keys'] += 1
+        return super().keys()
+    def __iter__(self):
+        self.stats['iter'] += 1
+        return super().__iter__()
+
+def configure(n):
+    opts = Options(verbose=True, depth=n, colour='red', unused_a=1, unused_b=2)
+    cache = Cache()
+    for i in range(n + 3):
+        dict.__setitem__(cache, 'k%d' % i, i * i)       #@A
+    level = opts['depth'] + 1                           #@B
+    hit = cache['k1']                                   #@C
+    report = sorted(k for k in dict.keys(opts) if k not in opts.used)   #@D
+    return opts, cache, level + hit, report             #@E
+
+def main(inp, emit):
+    opts, cache, v, report = configure(inp)
+    emit('unused options: %s' % report)                 #@F
+    return {'v': v, 'used': [str(u) for u in opts.used], 'stats': sorted(cache.stats.items()), 'report': report}
+'''
+
+PROGRAMS['owned_exception'] = '''
+import traceback
+
+class Job:
+    def __init__(self):
+        self.last_error = None
+    def parse(self, text):
+        try:
+            return int(text)
+        except ValueError as err:
+            self.last_error = err               #@A
+            note = 'bad input %r' % text        #@B
+            shown = traceback.format_exception(type(err), err, err.__traceback__)   #@C
+            return {'note': note, 'shown': shown, 'context': repr(err.__context__), 'cause': repr(err.__cause__)}
+
+def main(inp, emit):
+    job = Job()
+    first = job.parse('12')
+    second = job.parse('x%d' % inp)             #@D
+    err = job.last_error
+    later = traceback.format_exception(type(err), err, err.__traceback__)   #@E
+    emit('last error: %s' % later[-1].strip())
+    return {'first': first, 'second': second, 'later': later, 'ctx': repr(err.__context__),
+            'tb_depth': len(traceback.extract_tb(err.__traceback__))}
+'''
+
 # known finding C01/finalisation-delayed-until-gc: the same program WITHOUT gc.collect() — its result depends on
 # objects being finalised by reference counting as soon as the function that held them returns
 PROGRAMS['finalizers_nogc'] = PROGRAMS['finalizers'].replace('        gc.collect()\n', '')
